@@ -105,6 +105,7 @@ Eq(s, t) == Expand(s) = Expand(t)
 ApplyCb(cb, v) ==
     IF v[1] # "obj" THEN v
     ELSE CASE cb = "id" -> v
+           [] cb = "Acopy" -> v        \* every A(x) is replaced by a NEW, equal A(x): same value, other object
            [] cb = "AtoZ" -> IF v[2] = "A" THEN <<"obj", "Z", <<>>>> ELSE v
            [] cb = "Bswap" -> IF v[2] = "B" THEN <<"obj", "B", <<v[3][2], v[3][1]>>>> ELSE v
            [] cb = "Achild" -> IF v[2] = "A" THEN v[3][1] ELSE v
